@@ -1,6 +1,7 @@
 package sim
 
 import (
+	"runtime/metrics"
 	"time"
 	"unsafe"
 
@@ -18,8 +19,16 @@ type StepCounter struct {
 	Capped  bool
 	Fired   bool
 	// OnStep, when set, is called for every loop point (after counting).
-	OnStep func(vm *ugo.VM, step int64)
-	inHook bool
+	OnStep    func(vm *ugo.VM, step int64)
+	inHook    bool
+	allocBase uint64
+}
+
+var allocMetric = []metrics.Sample{{Name: "/gc/heap/allocs:bytes"}}
+
+func heapAllocBytes() uint64 {
+	metrics.Read(allocMetric)
+	return allocMetric[0].Value.Uint64()
 }
 
 // Install makes sc the process-wide hook until the returned function is called.
@@ -31,6 +40,16 @@ func (sc *StepCounter) Install() (restore func()) {
 		}
 		sc.Steps++
 		vm := (*ugo.VM)(obj)
+		if sc.Steps&31 == 0 && sc.Cap > 0 {
+			// allocation guard: a generated workload that doubles a string or array in a loop is ended like one
+			// that runs too long (the run is discarded by the engine), before it takes the worker down
+			a := heapAllocBytes()
+			if sc.allocBase == 0 {
+				sc.allocBase = a
+			} else if a-sc.allocBase > 1<<30 {
+				sc.Steps = sc.Cap + 1
+			}
+		}
 		if sc.AbortAt > 0 && sc.Steps == sc.AbortAt {
 			sc.Fired = true
 			sc.inHook = true
